@@ -446,6 +446,21 @@ func (x *Exec) useTop() {
 	x.reg.axiom("top", "nil", "(= (top 0) 0)")
 }
 
+// kindOf gives every embedding constructor (field of a struct, element of a backing, value slot of a map)
+// its own tag, so that objects built by different constructors are provably distinct.
+func (x *Exec) kindOf(ctor string) int {
+	x.reg.declare("okind", "(Int) Int")
+	if k, ok := x.kinds[ctor]; ok {
+		return k
+	}
+	if x.kinds == nil {
+		x.kinds = map[string]int{}
+	}
+	k := len(x.kinds) + 1
+	x.kinds[ctor] = k
+	return k
+}
+
 // newObj allocates a fresh top-level object reference.
 func (x *Exec) newObj(st *State, hint string) string {
 	x.useTop()
@@ -463,6 +478,7 @@ func (x *Exec) subObj(structT types.Type, field string, r string) string {
 	inv := "|par:" + typeKey(structT) + "." + field + "|"
 	x.reg.declare(f, "(Int) Int")
 	x.reg.declare(inv, "(Int) Int")
+	x.reg.axiom(f, "kind", fmt.Sprintf("(forall ((r Int)) (! (= (okind (%s r)) %d) :pattern ((%s r))))", f, x.kindOf(f), f))
 	x.reg.axiom(f, "inj", fmt.Sprintf("(forall ((r Int)) (! (and (= (%s (%s r)) r) (= (top (%s r)) (top r)) (not (= (%s r) 0)) (not (= (%s r) r)) (not (= (top (%s r)) (%s r)))) :pattern ((%s r))))", inv, f, f, f, f, f, f, f))
 	return "(" + f + " " + r + ")"
 }
@@ -476,6 +492,7 @@ func (x *Exec) elemObj(elemT types.Type, b, i string) string {
 	x.reg.declare(f, "(Int Int) Int")
 	x.reg.declare(fb, "(Int) Int")
 	x.reg.declare(fi, "(Int) Int")
+	x.reg.axiom(f, "kind", fmt.Sprintf("(forall ((b Int) (i Int)) (! (= (okind (%s b i)) %d) :pattern ((%s b i))))", f, x.kindOf(f), f))
 	x.reg.axiom(f, "inj", fmt.Sprintf("(forall ((b Int) (i Int)) (! (and (= (%s (%s b i)) b) (= (%s (%s b i)) i) (= (top (%s b i)) (top b)) (not (= (%s b i) 0)) (not (= (top (%s b i)) (%s b i)))) :pattern ((%s b i))))", fb, f, fi, f, f, f, f, f, f))
 	return "(" + f + " " + b + " " + i + ")"
 }
@@ -489,7 +506,8 @@ func (x *Exec) melemObj(mapT types.Type, m, k string) string {
 	x.reg.declare(f, "(Int Int) Int")
 	x.reg.declare(fb, "(Int) Int")
 	x.reg.declare(fi, "(Int) Int")
-	x.reg.axiom(f, "inj", fmt.Sprintf("(forall ((b Int) (i Int)) (! (and (= (%s (%s b i)) b) (= (%s (%s b i)) i) (= (top (%s b i)) (top b)) (not (= (%s b i) 0))) :pattern ((%s b i))))", fb, f, fi, f, f, f, f))
+	x.reg.axiom(f, "kind", fmt.Sprintf("(forall ((b Int) (i Int)) (! (= (okind (%s b i)) %d) :pattern ((%s b i))))", f, x.kindOf(f), f))
+	x.reg.axiom(f, "inj", fmt.Sprintf("(forall ((b Int) (i Int)) (! (and (= (%s (%s b i)) b) (= (%s (%s b i)) i) (= (top (%s b i)) (top b)) (not (= (%s b i) 0)) (not (= (top (%s b i)) (%s b i)))) :pattern ((%s b i))))", fb, f, fi, f, f, f, f, f, f))
 	return "(" + f + " " + m + " " + k + ")"
 }
 
